@@ -112,6 +112,7 @@ func (s *PfcpServer) main(wg *sync.WaitGroup) {
 	go s.receiver(wg)
 
 	for {
+		s.verifIdle()
 		select {
 		case sr := <-s.srCh:
 			s.log.Tracef("receive SessReport from srCh")
